@@ -404,9 +404,8 @@ Lemma respond_untouched send r :
 Proof. intros Hs j k last maxre s Ht. unfold respond. destruct (find _ (incoming_requests s)) as [v|]; [|apply untouched_refl].
   pose proof (Hs (Resp j k) (v_remote v) (if v_mtype v =? 1 then 7 else 8) 69 (v_tok v) maxre s ltac:(lia)) as U.
   destruct (send _ _ _ _ _ _ s) as [s1 o1]. cbn [fst snd] in U.
-  destruct last; destruct (alive k s1) eqn:Ea; cbn [fst snd]; try exact U.
-  - unfold stop_responder. rewrite Ea. cbn [fst snd]. apply (untouched_trans r s s1); [exact U|]. repeat split.
-  - apply (untouched_trans r s s1); [exact U|]. repeat split. Qed.
+  destruct last; [|exact U]. destruct (alive k s1) eqn:Ea; cbn [fst snd]; [|exact U].
+  unfold stop_responder. rewrite Ea. cbn [fst snd]. apply (untouched_trans r s s1); [exact U|]. repeat split. Qed.
 
 Theorem step_frame s e r : Inv s -> touches s e r = false -> Untouched r s (fst (step s e)) (snd (step s e)).
 Proof. intros HI Ht. destruct e; cbn in Ht; cbn [step].
@@ -523,13 +522,11 @@ Proof. intros HI Ha Hack Hf. cbn zeta.
     assert (Hv : v_remote v = r) by lia. rewrite Hv.
     destruct (send_message_busy (Resp j k) r (if v_mtype v =? 1 then 7 else 8) 69 (v_tok v) maxre s q' x HI Ha Hx) as (A & B & C).
     destruct (send_message _ _ _ _ _ _ s) as [s1 o1]. cbn [fst snd] in *.
-    destruct last; destruct (alive k s1) eqn:Eal; cbn [fst snd].
+    destruct last; [destruct (alive k s1) eqn:Eal|]; cbn [fst snd].
     + unfold stop_responder. rewrite Eal. cbn [fst snd]. rewrite subm_app, left_app, B. unfold subm, left. cbn. rewrite app_nil_r.
       split; [exact A|]. split; [reflexivity|]. exists x, x. auto.
     + split; [exact A|]. split; [exact B|]. exists x, x. auto.
-    + split; [exact A|]. split; [exact B|]. exists x, x. auto.
-    + rewrite subm_app, left_app, B. unfold subm, left. cbn. rewrite app_nil_r.
-      split; [exact A|]. split; [reflexivity|]. exists x, x. auto. Qed.
+    + split; [exact A|]. split; [exact B|]. exists x, x. auto. Qed.
 
 Theorem held_otherwise s e r q : Inv s -> aget r (backlogs s) = Some q -> acks s e r = false -> fails s e r = false ->
   let s' := fst (step s e) in let o := snd (step s e) in
